@@ -376,7 +376,10 @@ theorem execute_inv5 {st : State} {c i sa payload : Bytes} {st' : State} {evs : 
           (match mgr with
            | .native => tokMintByService { st with gw := gw' } addr recipient t.amount = .ok st'
            | .lockUnlock => tokTransfer { st with gw := gw' } addr st.self recipient t.amount true = .ok st') ∧
-          evs = gwEvs ++ [evTransferReceived st origin t.tokenId t.source recipient t.amount t.data]
+          evs = gwEvs ++ (evTransferReceived st origin t.tokenId t.source recipient t.amount t.data ::
+                  (match t.data with
+                   | none => []
+                   | some d => [evAppExecuted recipient origin i t.source d t.tokenId addr t.amount]))
       | .deploy d => ∃ mo st1 addr ev,
           deployTokenContract S k { st with gw := gw' } mo d.tokenId d.name d.symbol d.decimals = .ok (st1, addr, ev) ∧
           st' = { st1 with registry := fun x => if x = d.tokenId then some (addr, .native) else st1.registry x } := by
@@ -413,15 +416,19 @@ theorem execute_inv5 {st : State} {c i sa payload : Bytes} {st' : State} {evs : 
                     · cases h
                     · rename_i st2 hg
                       split at h
-                      · simp only [Except.ok.injEq, Prod.mk.injEq] at h
+                      · rename_i hdata
+                        simp only [Except.ok.injEq, Prod.mk.injEq] at h
                         obtain ⟨rfl, rfl⟩ := h
-                        refine ⟨recipient, addr, mgr, hdest, hreg, ?_, rfl⟩
-                        cases mgr <;> exact hg
-                      · split at h
+                        refine ⟨recipient, addr, mgr, hdest, hreg, ?_, ?_⟩
+                        · cases mgr <;> exact hg
+                        · rw [hdata]
+                      · rename_i d hdata
+                        split at h
                         · simp only [Except.ok.injEq, Prod.mk.injEq] at h
                           obtain ⟨rfl, rfl⟩ := h
-                          refine ⟨recipient, addr, mgr, hdest, hreg, ?_, rfl⟩
-                          cases mgr <;> exact hg
+                          refine ⟨recipient, addr, mgr, hdest, hreg, ?_, ?_⟩
+                          · cases mgr <;> exact hg
+                          · rw [hdata]
                         · cases h
               · rename_i d
                 dsimp only
@@ -448,7 +455,10 @@ theorem inbound_exact (st st' : State) (c i sa payload origin : Bytes) (t : Abi.
       (match mgr with
        | .native => tokMintByService st0 addr recipient t.amount = .ok st'
        | .lockUnlock => tokTransfer st0 addr st0.self recipient t.amount true = .ok st') ∧
-      (∃ gwEvs, evs = gwEvs ++ [evTransferReceived st origin t.tokenId t.source recipient t.amount t.data]) := by
+      (∃ gwEvs, evs = gwEvs ++ (evTransferReceived st origin t.tokenId t.source recipient t.amount t.data ::
+          (match t.data with
+           | none => []
+           | some d => [evAppExecuted recipient origin i t.source d t.tokenId addr t.amount]))) := by
   obtain ⟨gw', gwEvs, origin', inner, hdec, hm⟩ := execute_inv5 H S k h
   rw [hd] at hdec
   cases hdec
